@@ -330,6 +330,7 @@ class Mon:
                               obs_at_start=last_obs, closing_at_start={h for h, d in H.items() if d["closing"] and not d["dead"]},
                               start_line=i, stop_seen=bool(last_obs and last_obs["stop"]), cur_iter=None, first_iter=None,
                               adv_since_poll=False, udp_since_poll=False,
+                              udp_owed_at_start=any(q["owed"] and q["kind"] == "udp" for q in Rq.values()),
                               # uv_run starts with uv__update_time when the loop is dead, or in DEFAULT mode when alive and not stopped
                               fresh=not (last_obs and (not last_obs["alive"] or (l.split()[1] == "DEFAULT" and not last_obs["stop"]))))
                 i += 1; continue
@@ -449,7 +450,7 @@ class Mon:
         if close_phase and pending_close & close_phase and not lo and not o["alive"]:
             self.stats["alive_in_close_phase"] += 1
         if o["alive"] != int(lo) and o["alive"] != int(hi):
-            self.bad("C01", "alive-formula", f"uv_loop_alive()={o['alive']} but active&ref&!closing handles={cnt}, requests owed={owed}, "
+            self.bad("C01", "alive-but-nothing-owed" if o["alive"] else "dead-but-work-owed", f"uv_loop_alive()={o['alive']} but active&ref&!closing handles={cnt}, requests owed={owed}, "
                      f"close callbacks owed={sorted(pending_close)}", i)
 
     def finish_run(self, r, ret, nxt, H, i):
@@ -537,7 +538,10 @@ class Mon:
             zero, val, lenient = self.expected_timeout(r["mode"], o, r["obs_at_start"] if r["mode"] == "ONCE" else None, H, Rq, T)
             metrics = r.setdefault("metrics", None)
             want = 0 if zero else val
-            r["T"] = want; r["base"] = o["now"]; r["npoll_iter"] = 0; r["lenient"] = lenient or amb
+            r["T"] = want; r["base"] = o["now"]; r["npoll_iter"] = 0
+            # the pending queue (fed only by udp sends here) is invisible to the monitor: a udp send callback
+            # since the last poll, or one still owed, makes "0" acceptable as well
+            r["lenient"] = lenient or amb or r["udp_since_poll"] or (r["mode"] == "ONCE" and r["udp_owed_at_start"])
             r["prev_clock"] = None
         r["npoll_iter"] += 1
         want, base = r["T"], r["base"]
